@@ -10,13 +10,16 @@ Require Import XV.StripDefs XV.StripTreeModel XV.StripZipDefs.
 Open Scope list_scope.
 
 (* ------------------------------------------------------------------------------------------------ *)
-(* names and visibility *)
+(* keys and visibility *)
 
-Lemma up_name_strip_frames : forall st up, up_name (strip_frames st up) = up_name up.
-Proof. intros st up. destruct up; reflexivity. Qed.
+Lemma up_key_strip_frames : forall st up, up_key (strip_frames st up) = up_key up.
+Proof.
+  intros st up. induction up as [|f r IH]; [reflexivity|].
+  cbn [strip_frames up_key f_name f_attrs]. rewrite IH. reflexivity.
+Qed.
 
-Lemma parent_name_zstrip : forall st z, parent_name (zstrip st z) = parent_name z.
-Proof. intros st z. apply up_name_strip_frames. Qed.
+Lemma parent_key_zstrip : forall st z, parent_key (zstrip st z) = parent_key z.
+Proof. intros st z. apply up_key_strip_frames. Qed.
 
 Lemma strip_frames_length : forall st up, length (strip_frames st up) = length up.
 Proof. intros st up. induction up as [|f r IH]; simpl; [reflexivity|]. rewrite IH. reflexivity. Qed.
@@ -32,11 +35,11 @@ Proof. intros st l. apply Forall_forall. intros z Hz. apply filter_In in Hz. app
 
 Lemma zvisible_zstrip : forall st z, zvisible st (zstrip st z) = zvisible st z.
 Proof.
-  intros st z. unfold zvisible. rewrite parent_name_zstrip. cbn [zstrip z_self]. apply visible_rs.
+  intros st z. unfold zvisible. rewrite parent_key_zstrip. cbn [zstrip z_self]. apply visible_rs.
 Qed.
 
-Lemma visible_stripped_false : forall st pn x, visible st pn x = true -> stripped st pn x = false.
-Proof. intros st pn x H. unfold visible in H. destruct (stripped st pn x); [discriminate|reflexivity]. Qed.
+Lemma visible_stripped_false : forall st pk x, visible st pk x = true -> stripped st pk x = false.
+Proof. intros st pk x H. unfold visible in H. destruct (stripped st pk x); [discriminate|reflexivity]. Qed.
 
 (* ------------------------------------------------------------------------------------------------ *)
 (* 1. parent *)
@@ -44,10 +47,10 @@ Proof. intros st pn x H. unfold visible in H. destruct (stripped st pn x); [disc
 Theorem zparent_equiv : forall st z, zvisible st z = true ->
   option_map (zstrip st) (zparent z) = zparent (zstrip st z).
 Proof.
-  intros st [b x a up] Hv. unfold zvisible, parent_name in Hv. cbn [z_up z_self] in Hv.
+  intros st [b x a up] Hv. unfold zvisible, parent_key in Hv. cbn [z_up z_self] in Hv.
   destruct up as [|f up']; [reflexivity|].
-  unfold zparent, zstrip, parent_name.
-  cbn [z_up z_before z_self z_after strip_frames option_map up_name f_name f_attrs f_before f_after] in *.
+  unfold zparent, zstrip, parent_key.
+  cbn [z_up z_before z_self z_after strip_frames option_map up_key f_name f_attrs f_before f_after] in *.
   rewrite rs_elem, strip_list_app, (strip_list_cons_vis _ _ x a Hv). reflexivity.
 Qed.
 
@@ -64,16 +67,16 @@ Lemma zancestors_parent : forall z,
   zancestors z = match zparent z with Some p => p :: zancestors p | None => [] end.
 Proof. intros [b x a up]. destruct up; reflexivity. Qed.
 
-Lemma zanc_strip : forall st up b x a, visible st (up_name up) x = true ->
+Lemma zanc_strip : forall st up b x a, visible st (up_key up) x = true ->
   map (zstrip st) (zanc b x a up) =
-  zanc (strip_list st (up_name up) b) (remove_stripped st x) (strip_list st (up_name up) a)
+  zanc (strip_list st (up_key up) b) (remove_stripped st (up_key up) x) (strip_list st (up_key up) a)
        (strip_frames st up).
 Proof.
   intros st up. induction up as [|f up' IH]; intros b x a Hv; [reflexivity|].
-  cbn [up_name] in Hv.
-  cbn [zanc strip_frames map f_name f_attrs f_before f_after up_name].
+  cbn [up_key] in Hv.
+  cbn [zanc strip_frames map f_name f_attrs f_before f_after up_key].
   rewrite IH by reflexivity.
-  unfold zstrip, parent_name. cbn [z_before z_self z_after z_up].
+  unfold zstrip, parent_key. cbn [z_before z_self z_after z_up].
   rewrite rs_elem, strip_list_app, (strip_list_cons_vis _ _ x a Hv). reflexivity.
 Qed.
 
@@ -106,18 +109,18 @@ Proof. intros st z Hv. constructor; [exact Hv|apply zancestors_visible]. Qed.
 
 Lemma zpicks_strip : forall st up l pre post,
   map (zstrip st) (zkeep st (zpicks up pre l post)) =
-  zpicks (strip_frames st up) (strip_list st (up_name up) pre) (strip_list st (up_name up) l)
-         (strip_list st (up_name up) post).
+  zpicks (strip_frames st up) (strip_list st (up_key up) pre) (strip_list st (up_key up) l)
+         (strip_list st (up_key up) post).
 Proof.
   intros st up l. unfold zkeep. induction l as [|k r IH]; intros pre post; [reflexivity|].
-  cbn [zpicks filter]. unfold zvisible at 1, parent_name at 1. cbn [z_up z_self].
-  destruct (visible st (up_name up) k) eqn:E.
+  cbn [zpicks filter]. unfold zvisible at 1, parent_key at 1. cbn [z_up z_self].
+  destruct (visible st (up_key up) k) eqn:E.
   - rewrite (strip_list_cons_vis _ _ _ _ E). cbn [map zpicks]. f_equal.
-    + unfold zstrip, parent_name. cbn [z_before z_self z_after z_up]. rewrite strip_list_app. reflexivity.
+    + unfold zstrip, parent_key. cbn [z_before z_self z_after z_up]. rewrite strip_list_app. reflexivity.
     + rewrite IH, strip_list_app, (strip_list_cons_vis _ _ k [] E). reflexivity.
   - rewrite (strip_list_cons_invis _ _ _ _ E).
     rewrite IH, strip_list_app, (strip_list_cons_invis _ _ k [] E).
-    change (strip_list st (up_name up) []) with (@nil node). rewrite app_nil_r. reflexivity.
+    change (strip_list st (up_key up) []) with (@nil node). rewrite app_nil_r. reflexivity.
 Qed.
 
 Lemma zchildren_equiv : forall st z,
@@ -134,8 +137,8 @@ Proof. intros st z. unfold zchildren. destruct (z_self z); try constructor. appl
 Lemma zfs_equiv : forall st z, zvisible st z = true ->
   map (zstrip st) (zfollowing_siblings st z) = zfollowing_siblings no_strip (zstrip st z).
 Proof.
-  intros st [b x a up] Hv. unfold zvisible, parent_name in Hv. cbn [z_up z_self] in Hv.
-  unfold zfollowing_siblings. cbn [zstrip z_self z_before z_after z_up]. unfold parent_name. cbn [z_up].
+  intros st [b x a up] Hv. unfold zvisible, parent_key in Hv. cbn [z_up z_self] in Hv.
+  unfold zfollowing_siblings. cbn [zstrip z_self z_before z_after z_up]. unfold parent_key. cbn [z_up].
   rewrite zkeep_no_strip, zpicks_strip.
   rewrite strip_list_app, (strip_list_cons_vis _ _ x [] Hv). reflexivity.
 Qed.
@@ -143,8 +146,8 @@ Qed.
 Lemma zps_equiv : forall st z, zvisible st z = true ->
   map (zstrip st) (zpreceding_siblings st z) = zpreceding_siblings no_strip (zstrip st z).
 Proof.
-  intros st [b x a up] Hv. unfold zvisible, parent_name in Hv. cbn [z_up z_self] in Hv.
-  unfold zpreceding_siblings. cbn [zstrip z_self z_before z_after z_up]. unfold parent_name. cbn [z_up].
+  intros st [b x a up] Hv. unfold zvisible, parent_key in Hv. cbn [z_up z_self] in Hv.
+  unfold zpreceding_siblings. cbn [zstrip z_self z_before z_after z_up]. unfold parent_key. cbn [z_up].
   rewrite zkeep_no_strip, zpicks_strip.
   rewrite (strip_list_cons_vis _ _ x a Hv). reflexivity.
 Qed.
@@ -156,7 +159,7 @@ Fixpoint zdesc_go (st : pred) (up : list frame) (pre l : list node) : list zctx 
   match l with
   | [] => []
   | k :: r =>
-      (if visible st (up_name up) k
+      (if visible st (up_key up) k
        then {| z_before := pre; z_self := k; z_after := r; z_up := up |} :: zdesc st up pre k r
        else [])
       ++ zdesc_go st up (pre ++ [k]) r
@@ -167,7 +170,7 @@ Lemma zdesc_go_fix : forall st up n a pre post ks pre',
      match l with
      | [] => []
      | k :: r =>
-         (if visible st n k
+         (if visible st (child_key (up_key up) n a) k
           then {| z_before := pre'; z_self := k; z_after := r;
                   z_up := {| f_name := n; f_attrs := a; f_before := pre; f_after := post |} :: up |}
                :: zdesc st ({| f_name := n; f_attrs := a; f_before := pre; f_after := post |} :: up) pre' k r
@@ -188,25 +191,25 @@ Proof. intros st up pre n a ks post. exact (zdesc_go_fix st up n a pre post ks [
 Lemma zdesc_go_strip : forall st ks,
   Forall (fun k => forall up pre post,
             map (zstrip st) (zdesc st up pre k post) =
-            zdesc no_strip (strip_frames st up) (strip_list st (up_name up) pre)
-                  (remove_stripped st k) (strip_list st (up_name up) post)) ks ->
+            zdesc no_strip (strip_frames st up) (strip_list st (up_key up) pre)
+                  (remove_stripped st (up_key up) k) (strip_list st (up_key up) post)) ks ->
   forall up pre,
   map (zstrip st) (zdesc_go st up pre ks) =
-  zdesc_go no_strip (strip_frames st up) (strip_list st (up_name up) pre) (strip_list st (up_name up) ks).
+  zdesc_go no_strip (strip_frames st up) (strip_list st (up_key up) pre) (strip_list st (up_key up) ks).
 Proof.
   intros st ks HF. induction HF as [|k r Hk _ IH]; intros up pre; [reflexivity|].
   cbn [zdesc_go]. rewrite map_app, IH, strip_list_app.
-  destruct (visible st (up_name up) k) eqn:E.
+  destruct (visible st (up_key up) k) eqn:E.
   - rewrite (strip_list_cons_vis _ _ k r E), (strip_list_cons_vis _ _ k [] E).
     cbn [zdesc_go]. rewrite visible_no_strip. cbn [map]. rewrite Hk. reflexivity.
   - rewrite (strip_list_cons_invis _ _ k r E), (strip_list_cons_invis _ _ k [] E).
-    change (strip_list st (up_name up) []) with (@nil node). rewrite app_nil_r. reflexivity.
+    change (strip_list st (up_key up) []) with (@nil node). rewrite app_nil_r. reflexivity.
 Qed.
 
 Lemma zdesc_strip : forall st x up pre post,
   map (zstrip st) (zdesc st up pre x post) =
-  zdesc no_strip (strip_frames st up) (strip_list st (up_name up) pre)
-        (remove_stripped st x) (strip_list st (up_name up) post).
+  zdesc no_strip (strip_frames st up) (strip_list st (up_key up) pre)
+        (remove_stripped st (up_key up) x) (strip_list st (up_key up) post).
 Proof.
   intros st. induction x using node_ind'; intros up pre post; try reflexivity.
   rewrite rs_elem, !zdesc_elem. rewrite (zdesc_go_strip st ks H). reflexivity.
@@ -218,7 +221,7 @@ Lemma zdesc_go_visible : forall st ks,
 Proof.
   intros st ks HF. induction HF as [|k r Hk _ IH]; intros up pre; [constructor|].
   cbn [zdesc_go]. apply Forall_app. split; [|apply IH].
-  destruct (visible st (up_name up) k) eqn:E; [|constructor].
+  destruct (visible st (up_key up) k) eqn:E; [|constructor].
   constructor; [exact E|apply Hk].
 Qed.
 
@@ -398,14 +401,14 @@ Theorem zobserve_equiv : forall st z, zvisible st z = true ->
 Proof.
   intros st z Hv.
   pose proof (zfollowing_equiv st z Hv) as HF. pose proof (zpreceding_equiv st z Hv) as HP.
-  unfold zobserve. rewrite <- HF, <- HP, !map_length, parent_name_zstrip.
-  destruct z as [b x a up]. unfold zvisible, parent_name in *.
-  cbn [zstrip z_before z_self z_after z_up] in *. unfold parent_name. cbn [z_up].
-  set (pn := up_name up) in *.
+  unfold zobserve. rewrite <- HF, <- HP, !map_length, parent_key_zstrip.
+  destruct z as [b x a up]. unfold zvisible, parent_key in *.
+  cbn [zstrip z_before z_self z_after z_up] in *. unfold parent_key. cbn [z_up].
+  set (pn := up_key up) in *.
   pose proof (visible_stripped_false st pn x Hv) as Hs.
   rewrite (rs_string_value st pn x Hs), (rs_copy_events st pn x Hs), rs_children.
   rewrite !filter_visible_no_strip, map_length, strip_list_length, strip_frames_length.
-  replace (strip_list st pn b ++ remove_stripped st x :: strip_list st pn a)
+  replace (strip_list st pn b ++ remove_stripped st pn x :: strip_list st pn a)
     with (strip_list st pn (b ++ x :: a))
     by (rewrite strip_list_app, (strip_list_cons_vis _ _ x a Hv); reflexivity).
   rewrite strip_list_length. reflexivity.
@@ -414,18 +417,18 @@ Qed.
 (* ------------------------------------------------------------------------------------------------ *)
 (* 5. the whole observation language *)
 
-Lemma zrun_equiv : forall st p d, visible st (0, 0)%N d = true ->
-  zrun st p d = zrun no_strip p (remove_stripped st d).
+Lemma zrun_equiv : forall st p d, visible st root_key d = true ->
+  zrun st p d = zrun no_strip p (remove_stripped st root_key d).
 Proof.
   intros st p d Hv. unfold zrun.
-  change (zroot (remove_stripped st d)) with (zstrip st (zroot d)).
+  change (zroot (remove_stripped st root_key d)) with (zstrip st (zroot d)).
   rewrite <- (zpath_equiv st p (zroot d) Hv). rewrite map_map.
   apply map_ext_F. eapply Forall_impl; [|apply (zpath_visible st p (zroot d) Hv)].
   intros z Hz. apply zobserve_equiv. exact Hz.
 Qed.
 
 Theorem zstrip_equiv : forall st p n a ks,
-  zrun st p (Elem n a ks) = zrun no_strip p (remove_stripped st (Elem n a ks)).
+  zrun st p (Elem n a ks) = zrun no_strip p (remove_stripped st root_key (Elem n a ks)).
 Proof. intros st p n a ks. apply zrun_equiv. reflexivity. Qed.
 
 (* ------------------------------------------------------------------------------------------------ *)
@@ -490,7 +493,7 @@ Example ex_run_a :
     [ {| zo_string := [120]%N; zo_copy := [EStart (0, 2)%N []; EChars [120]%N; EEnd (0, 2)%N];
          zo_position := 1; zo_siblings := 2; zo_children := 1; zo_depth := 1;
          zo_following := 2; zo_preceding := 0 |} ] /\
-  zrun no_strip ex_to_a (remove_stripped ex_strip_all ex_tree) = zrun ex_strip_all ex_to_a ex_tree /\
+  zrun no_strip ex_to_a (remove_stripped ex_strip_all root_key ex_tree) = zrun ex_strip_all ex_to_a ex_tree /\
   zrun no_strip ex_to_a ex_tree =
     [ {| zo_string := [120]%N; zo_copy := [EStart (0, 2)%N []; EChars [120]%N; EEnd (0, 2)%N];
          zo_position := 2; zo_siblings := 5; zo_children := 1; zo_depth := 1;
@@ -504,7 +507,7 @@ Example ex_run_c_prec_parent :
     [ {| zo_string := [120]%N; zo_copy := [EStart (0, 2)%N []; EChars [120]%N; EEnd (0, 2)%N];
          zo_position := 1; zo_siblings := 2; zo_children := 1; zo_depth := 1;
          zo_following := 2; zo_preceding := 0 |} ] /\
-  zrun no_strip ex_c_prec_parent (remove_stripped ex_strip_all ex_tree) =
+  zrun no_strip ex_c_prec_parent (remove_stripped ex_strip_all root_key ex_tree) =
     zrun ex_strip_all ex_c_prec_parent ex_tree /\
   zrun no_strip ex_c_prec_parent ex_tree =
     [ {| zo_string := [32; 10; 32; 10]%N;
@@ -518,8 +521,8 @@ Proof. vm_compute. repeat split; reflexivity. Qed.
 Example ex_rebuild :
   map z_self (zeval_path no_strip ex_c_top (zroot ex_tree)) = [ex_tree] /\
   map z_self (zeval_path ex_strip_all ex_c_top (zroot ex_tree)) = [ex_tree] /\
-  map z_self (zeval_path no_strip ex_c_top (zroot (remove_stripped ex_strip_all ex_tree))) =
-    [remove_stripped ex_strip_all ex_tree].
+  map z_self (zeval_path no_strip ex_c_top (zroot (remove_stripped ex_strip_all root_key ex_tree))) =
+    [remove_stripped ex_strip_all root_key ex_tree].
 Proof. vm_compute. repeat split; reflexivity. Qed.
 
 Print Assumptions zparent_equiv.
